@@ -109,19 +109,29 @@ func (s *QueryPlanStep) setQuery() *QueryPlanStep {
 func getVariablesList(s ast.SelectionSet) []string {
 	var args []string
 	for _, f := range common.SelectionSetToFields(s, nil) {
-		for _, a := range f.Arguments {
-			if len(a.Value.Children) > 0 {
-				args = append(args, getArgumentListChildrenVariablesList(a.Value.Children)...)
-				continue
-			}
-
-			if a.Value != nil {
-				args = append(args, a.Value.Raw)
-			}
+		args = append(args, getArgumentListVariablesList(f.Arguments)...)
+		// variables used inside directives of the field, f.e. hello @include(if: $someVariable)
+		for _, d := range f.Directives {
+			args = append(args, getArgumentListVariablesList(d.Arguments)...)
 		}
 
 		if f.SelectionSet != nil {
 			args = append(args, getVariablesList(f.SelectionSet)...)
+		}
+	}
+	return args
+}
+
+func getArgumentListVariablesList(arguments ast.ArgumentList) []string {
+	var args []string
+	for _, a := range arguments {
+		if len(a.Value.Children) > 0 {
+			args = append(args, getArgumentListChildrenVariablesList(a.Value.Children)...)
+			continue
+		}
+
+		if a.Value != nil {
+			args = append(args, a.Value.Raw)
 		}
 	}
 	return args
